@@ -1057,6 +1057,16 @@ class Explorer:
             r = self.opaque_hook(self, st, path, args, argterms, info)
             if r is not None:
                 res = r
+        # container axiom: a lookup of key k right after `insert(k, ..)` on the same map / set finds it
+        nm_ = path.split("::")[-1]
+        if nm_ in ("get", "get_mut", "get_full", "get_index_of", "contains_key", "contains") and len(argterms) >= 2 and res[0] == "sym":
+            rc = argterms[0]
+            if rc[0] == "sym" and rc[1][0] == "mut" and rc[1][1][0].split("::")[-1] == "insert" and len(rc[1]) > 5 and rc[1][5] \
+                    and rc[1][5][0] == argterms[1]:
+                if nm_.startswith("contains"):
+                    self.constrain(st, res[1], "eq", 1)
+                else:
+                    self.constrain(st, ("discr", res[1], "std::option::Option"), "eq", self.variant_discr("std::option::Option", "Some"))
         if SNAP_RE.search(path):
             st.effects.append(("call", path, tuple(args), argterms, res, site, dict(st.cons)))
         else:
@@ -1494,6 +1504,38 @@ class Explorer:
                 "std::result::Result::<T, E>::unwrap_or_else": ("res", "unwrap_or_else_r"), "std::result::Result::<T, E>::and_then": ("res", "and_then_r")}
         if p in COMB and self.closure_of(st, args[-1]) is not None and self.closure_of(st, args[-1])[1] in self.F.fns:
             return self.combinator(st, stack, fr, COMB[p], args, t, site, info, path)
+        if p in ("std::option::Option::<T>::map", "std::result::Result::<T, E>::map") and len(args) == 2 and args[1][0] == "fn":
+            # x.map(f) with a function item: the variant is the receiver's, the payload is f(payload)
+            adt = "std::option::Option" if "option" in p else "std::result::Result"
+            good, bad = ("Some", "None") if adt.endswith("Option") else ("Ok", "Err")
+            recv = args[0]
+            fpath = args[1][1]
+            if recv[0] == "agg":
+                if recv[2] == good:
+                    return ret(AGG(adt, good, (SYM(self.cap(("call", fpath, (recv[3][0],)))),)))
+                return ret(recv)
+            if recv[0] == "sym":
+                dt = ("discr", recv[1], adt)
+                alts = []
+                for variant in (good, bad):
+                    s2 = st.clone()
+                    if not self.constrain(s2, dt, "eq", self.variant_discr(adt, variant)):
+                        continue
+                    k2 = self.clone_stack(stack)
+                    pay = SYM(self.cap(("field", recv[1], 0)))
+                    if variant == good:
+                        val = AGG(adt, good, (SYM(self.cap(("call", fpath, (pay,)))),))
+                    else:
+                        val = AGG(adt, bad, () if adt.endswith("Option") else (pay,))
+                    self.write_place(s2, k2[-1], dest, val, site)
+                    if target is None:
+                        continue
+                    k2[-1].bb = target
+                    alts.append((s2, k2))
+                if not alts:
+                    self.finish_path(st, None, "diverge")
+                    return "stop"
+                return ("fork", alts)
         # ---- higher-order calls with a local closure argument
         clos = [(i, self.closure_of(st, a)) for i, a in enumerate(args)]
         clos = [(i, c) for i, c in clos if c is not None and c[1] in self.F.fns]
